@@ -290,7 +290,28 @@ def _expand_call(fd: ast.FunctionDef, call: ast.Call, is_method: bool, receiver:
     rn = _Renamer(subst, rename)
     body = [rn.visit(s) for s in body]
     body = _convert_returns(body, target)
+    body = _fold_result_copy(body, target, set(rename.values()), bound)
     return pre + body
+
+
+def _fold_result_copy(body: List[ast.stmt], target: Optional[ast.AST], helper_locals: Set[str], bound: Dict[str, ast.AST]) -> List[ast.stmt]:
+    """`r__inl1 = ...; ...; x = r__inl1` (the helper returned one of its own locals): the local IS the result — it is renamed to the target and the copy
+    dropped, so the caller's variable keeps its definition (`x = torch.zeros(...)`) instead of becoming an alias of a temporary."""
+    if not isinstance(target, ast.Name) or not body:
+        return body
+    # only the plain shape: exactly one conversion `target = <helper local>`, as the last statement of the body
+    last = body[-1]
+    if not (isinstance(last, ast.Assign) and len(last.targets) == 1 and isinstance(last.targets[0], ast.Name) and last.targets[0].id == target.id
+            and isinstance(last.value, ast.Name) and last.value.id in helper_locals):
+        return body
+    tmp = last.value.id
+    others = [s for s in body[:-1] for x in ast.walk(s) if isinstance(x, ast.Name) and x.id == target.id]
+    if others or any(isinstance(x, ast.Name) and x.id == target.id for a in bound.values() for x in ast.walk(a)):
+        return body  # the target is read or written inside the body / by an argument: keep the copy
+    class R(ast.NodeTransformer):
+        def visit_Name(self, n: ast.Name):
+            return ast.copy_location(ast.Name(id=target.id, ctx=n.ctx), n) if n.id == tmp else n
+    return [R().visit(s) for s in body[:-1]]
 
 
 def _expr_helper(fd: ast.FunctionDef) -> Optional[ast.AST]:
@@ -429,6 +450,58 @@ class _Inliner:
                             newtest = ast.copy_location(ast.Name(id=tmp, ctx=ast.Load()), tc)
                             s.test = ast.copy_location(ast.UnaryOp(op=ast.Not(), operand=newtest), t) if neg else newtest
                             out.extend(self._stmts(body, cls_name, current, depth + 1))
+            # a multi-statement helper called somewhere INSIDE a simple statement (`return a, self._h(), b`; `x = f(self._h(y))`): the call is hoisted
+            # into a temporary in front of the statement and expanded there (the program is analysed, not run: the other operands of the statement are
+            # not re-ordered against each other, only the helper's body now precedes them)
+            if expanded is None and depth < MAX_DEPTH and isinstance(s, (ast.Expr, ast.Assign, ast.AugAssign, ast.AnnAssign, ast.Return)) and getattr(s, "value", None) is not None:
+                hoisted: List[ast.stmt] = []
+                me = self
+
+                class H(ast.NodeTransformer):
+                    def visit_Call(self, c: ast.Call):
+                        self.generic_visit(c)
+                        if c is getattr(s, "value", None):
+                            return c  # the whole-value case was handled above
+                        r = me._resolve(c, cls_name)
+                        if r is None or r[0].name == current or _expr_helper(r[0]) is not None:
+                            return c
+                        fd, is_method, recv = r
+                        tmp = f"val__inl{me.ctx.k + 1}"
+                        body = _expand_call(fd, c, is_method, recv, ast.Name(id=tmp, ctx=ast.Store()), me.ctx)
+                        if body is None:
+                            return c
+                        me.ctx.sites += 1
+                        hoisted.extend(body)
+                        return ast.copy_location(ast.Name(id=tmp, ctx=ast.Load()), c)
+
+                    def visit_Lambda(self, n):
+                        return n
+
+                    def visit_ListComp(self, n):
+                        return n
+
+                    def visit_SetComp(self, n):
+                        return n
+
+                    def visit_DictComp(self, n):
+                        return n
+
+                    def visit_GeneratorExp(self, n):
+                        return n
+
+                    def visit_IfExp(self, n):
+                        n.test = self.visit(n.test)
+                        return n  # the arms are evaluated conditionally: a helper there is not hoisted
+
+                    def visit_BoolOp(self, n):
+                        n.values[0] = self.visit(n.values[0])
+                        return n
+
+                s.value = H().visit(s.value)
+                if hoisted:
+                    for b in hoisted:
+                        ast.fix_missing_locations(ast.copy_location(b, s) if not hasattr(b, "lineno") else b)
+                    out.extend(self._stmts(hoisted, cls_name, current, depth + 1))
             if expanded is not None:
                 out.extend(expanded)
                 continue
